@@ -695,6 +695,14 @@ var replayFns = map[string]vlib.ReplayFn{
 		f, _ := evaluate(c)
 		return f
 	},
+	"shared": func(raw json.RawMessage) *vlib.Failure {
+		var c SharedCase
+		if f := vlib.Decode(raw, &c); f != nil {
+			return f
+		}
+		f, _ := evaluateShared(c)
+		return f
+	},
 }
 
 func TestReplay(t *testing.T)  { vlib.ReplayMain(t, ev, replayFns) }
